@@ -293,6 +293,7 @@ func c04readsOn(c *Ctx, p *load.Program, rule string) {
 		"(encoding/binary.bigEndian).PutUint16": true, "(encoding/binary.bigEndian).PutUint32": true, "(encoding/binary.bigEndian).PutUint64": true,
 		"(encoding/binary.bigEndian).AppendUint16": true, "(encoding/binary.bigEndian).AppendUint32": true, "(encoding/binary.bigEndian).AppendUint64": true,
 		"N/vaa.MustWrite": true, "(*bytes.Buffer).Write": true, "(*bytes.Buffer).Bytes": true, "(time.Time).Unix": true,
+		"(*bytes.Buffer).WriteByte": true, "(*bytes.Buffer).Grow": true, "(*bytes.Buffer).Len": true,
 		"geth/crypto.Keccak256Hash": true, "(geth/common.Hash).Bytes": true, "(*N/vaa.VAA).serializeBody": true, "(*N/vaa.VAA).signingBody": true,
 	}
 	for _, name := range []string{"serializeBody", "signingBody", "SigningMsg"} {
